@@ -101,6 +101,23 @@ pub fn run(seed: u64, n: usize, out: &str) {
             let m = if r.chance(0.5) { -m } else { m };
             match r.below(3) { 0 => { bl = m; bh = m; } 1 => { if m > 0.0 { bl = m; bh = m * 2.0 } else { bl = m * 2.0; bh = m } } _ => { bl = m; bh = m } }
         }
+        {
+            // overflow band (own derived state: the cases that do not take it are unchanged): a point divisor / factor in the top
+            // two binades with a random mantissa, and a left operand of comparable magnitude, so that quotients are O(1) while the
+            // reciprocal of the divisor is SUBNORMAL (seeded change C07-m5: x / d computed as x * (1 / d))
+            let mut y = Rng(r.0 ^ 0xC07_B16B);
+            if y.chance(0.06) {
+                let e = Float::MAX_EXP as i32 - 1 - y.below(2) as i32;
+                let m = ((1.0 + y.f01()) as Float) * (2.0 as Float).powi(e) * if y.chance(0.5) { -1.0 } else { 1.0 };
+                if m.is_finite() {
+                    bl = m; bh = m;
+                    let f = y.range(0.05, 0.99) as Float;
+                    let c = m.abs() * f * if y.chance(0.5) { -1.0 } else { 1.0 };
+                    let w = c.abs() * (*y.pick(&[0.0, 1e-15, 1e-9, 1e-3]) as Float);
+                    al = c - w; ah = c + w;
+                }
+            }
+        }
         if op == 24 {
             // from_bounds: also NaN bounds and inverted bounds (its debug_assert!(high >= low))
             match r.below(12) { 0 => { ah = Float::NAN; } 1 => { al = Float::NAN; } 2 | 3 => { std::mem::swap(&mut al, &mut ah); } _ => {} }
